@@ -42,6 +42,10 @@ func main() {
 				}
 				fmt.Printf("### %s (%d jobs)\n\n", prop, len(jobs))
 				for _, j := range jobs {
+					if j.Node != nil {
+						fmt.Printf("- `%s` (Node front end: all client operation sequences up to length %d over %d operations, prefix of %d)\n", j.Name, j.Node.Depth, len(j.Node.Ops), len(j.Node.Prefix))
+						continue
+					}
 					extra := ""
 					if j.Strategy == "ddfs" {
 						extra = fmt.Sprintf(" k<=%d, script of %d operations", j.Sc.DevBound, len(j.Sc.Script))
